@@ -551,6 +551,13 @@ pub fn cmd_tamper(args: &[String]) {
                             match res { Ok((mm, tt)) if mm == m && tt.bits() == tag => {}, _ => rep.fail("C02 DryocStream::pull_to_vec: untampered input rejected", json!({"mlen": mlen, "seed": seed})) }
                         } else if res.is_ok() {
                             rep.fail(&format!("C02 DryocStream::pull_to_vec: accepts a ciphertext with {}", kind), json!({"mlen": mlen, "how": how, "seed": seed}));
+                        } else if *k == key && *h == header {
+                            // the untampered input is always accepted: also by the object that has just rejected a tampered one
+                            rep.evaluations += 1;
+                            match catch(|| o.pull_to_vec(&c, ad.as_ref())) {
+                                Ok(Ok((mm, tt))) if mm == m && tt.bits() == tag => {}
+                                _ => rep.fail("C02 DryocStream::pull_to_vec: untampered input rejected after a rejected pull on the same stream", json!({"mlen": mlen, "after": how, "seed": seed})),
+                            }
                         }
                     }
                 }
